@@ -71,6 +71,7 @@ let parse_opts fs =
   | _ -> failwith "bad opt line"
 
 let the_gi : ginput option ref = ref None
+let cur_prefix : string ref = ref ""
 
 let rec unit_key (inp : input) (u : int) : int =
   if u >= List.length inp.in_units then
@@ -150,7 +151,8 @@ let resolve_plan (inp : input) (g : ginput) (s : state) (orders : (int * int lis
   if tops = [] then RNone else
   match fs with
   | ru :: rv :: ro :: rs ->
-      let (_, id) = List.nth tops (ios ru mod List.length tops) in
+      let (tkey, id) = List.nth tops (ios ru mod List.length tops) in
+      Printf.printf "%s target %d\n" !cur_prefix tkey;
       if Sys.getenv_opt "VERIF_TRACE" <> None then prerr_endline (Printf.sprintf "resolve: id %d group %b members %d" id (is_group_id g (i2n id)) (List.length (members_of g (i2n id))));
       let v = ios rv mod List.length s.st_routes in
       let rs = List.map ios rs in
@@ -224,6 +226,7 @@ let run_engine (id, lines) =
         let i = get_inp () in
         let s = !sols.(!cur) in
         let g = (match !gi with Some g -> g | None -> failwith "no build") in
+        cur_prefix := Printf.sprintf "%s %d" id !step;
         let noop = ref false in
         let handled = ref false in
         let report res = Printf.printf "%s %d result %s\n" id !step (result_string res) in
@@ -246,6 +249,7 @@ let run_engine (id, lines) =
                if tops = [] then (noop := true; (kind, r))
                else begin
                  let (key, tid) = List.nth tops (int_of_string (List.hd r) mod List.length tops) in
+                 Printf.printf "%s target %d\n" !cur_prefix key;
                  if is_group_id g (i2n tid) then begin
                    let (s', res) = g_unplan_group g s (i2n tid) in
                    !sols.(!cur) <- s'; report res; handled := true; (kind, r)
@@ -328,7 +332,7 @@ let run_engine (id, lines) =
               | _ -> failwith "bad q_gens")
          | "q_best" | "q_check" -> Printf.printf "%s %d result done\n" id !step
          | "q_format" ->
-             let o = format_solution i s in
+             let o = g_format_solution g s in
              let p = Printf.sprintf "%s %d fmt" id !step in
              List.iteri (fun vi v ->
                Printf.printf "%s veh %d dur %s travel %s dist %s stopsdur %s wait %s\n" p vi
